@@ -16,7 +16,7 @@ META = {
     "category": "proof",
     "technique": "Coq proof (invariants over the token run, induction over trees) + differential correspondence",
     "text": "Coq theorems over an executable model of xml::Parser::next with all its readers and limits, decodeEntities/"
-            "appendCharRef/encodeUtf8 (uint32 wrap written out) and DomBuilder: for arbitrary bytes the run terminates, every "
+            "appendCharRef/encodeUtf8 and DomBuilder: for arbitrary bytes the run terminates, every "
             "reported slice lies inside the input, and an accepted document has balanced, properly nested tags within all "
             "configured limits; predefined entities and numeric references decode to the right UTF-8 and undefined entities "
             "are never expanded; see Properties.v for the exact statements. Model and code (pull, SAX and DOM) run on the "
